@@ -256,6 +256,8 @@ def elem_to_arrays(ex, schema, arrays, idx, value, prefix=""):
             t = z3.IntVal(NONE_CODE) if value is None else (
                 value.t if isinstance(value, SymOpt) else lift_int(value))
         elif isinstance(schema, T.Range) or schema.ty == INT:
+            if isinstance(value, Obj) and "id" in value.fields:
+                value = value.fields["id"]      # objects are stored by their ghost id
             t = lift_int(value)
         elif schema.ty == BOOL:
             t = lift_bool(value)
